@@ -71,9 +71,10 @@ PROPS = {
         "exhaustive": {"quick": False, "thorough": False},
         "assumptions": COMMON_ASSUME + ["a Vec<u8> never exceeds isize::MAX bytes (body lengths < 2^63)",
                                         "the parser is told the arity of every invoked method (collected from the case)"],
-        "level_text": "PARTIAL: the framing theorem (every PkgLength delimits exactly its body, all widths) is proved for all inputs; "
-                      "the full parse-back statement is not yet a theorem and rests on the Spec parser being run on the crate's bytes "
-                      "for every generated tree, plus model/implementation correspondence on the same trees.",
+        "level_text": "Theorem c06_roundtrip: for every well-formed tree over all exported constructors except Field and "
+                      "ResourceTemplate (any shape, depth, body size; both build profiles) the Spec parser reads back exactly the "
+                      "tree and stops exactly at the end; PARTIAL for Field lists and ResourceTemplate (the latter is C10's theorem), "
+                      "which rest on the parser being run on the crate's bytes plus model/implementation correspondence.",
     },
     "C10": {
         "rule": "cases = single descriptors of all 7 kinds x 3 widths with random and boundary arguments, all flag combinations; "
